@@ -394,6 +394,26 @@ fn c17d_redundant_removal_safe_v4() {
     std::mem::forget(entry);
 }
 
+// vk: tier=thorough; timeout=1800; unwindset=memcmp.0:17; bound=2 arbitrary v6 ROAs, no announcements, one arbitrary route; list sorting stubbed out
+#[kani::proof]
+#[kani::unwind(5)]
+#[kani::stub(<[Announcement]>::sort, nop_sort)]
+fn c17d_redundant_removal_safe_v6() {
+    let r0 = any_roa6();
+    let r1 = any_roa6();
+    let roas = [Roa::new(pfx6(&r0), &r0), Roa::new(pfx6(&r1), &r1)];
+    let entry = BgpAnalyser::categorise_roa(roas[0], &[], &roas);
+    let ap = any_v6();
+    let route = Route { bits: v6_bits(ap), len: ap.addr_len(), asn: AsNumber::from_u32(kani::any()) };
+    let redundant = entry.state() == BgpAnalysisState::RoaRedundant;
+    if redundant && ref_matches(&vrp6(&r0), &route) {
+        assert!(ref_matches(&vrp6(&r1), &route));
+    }
+    kani::cover!(redundant && ref_matches(&vrp6(&r0), &route));
+    kani::cover!(!redundant);
+    std::mem::forget(entry);
+}
+
 //------------ C17(e): per-ROA categorisation -----------------------------------
 
 fn is_ann(list: &[Announcement], a: &RouteOrigin<Ipv4Prefix>) -> bool {
